@@ -156,6 +156,25 @@ def sweep(tier: str) -> Sweep:
     sw.note(["convert", "injective"], "convert")
     sw.check(len(set(conv)) == len(conv) == 260 or len(set(conv)) == len(conv), "convert_fmt_str is not injective on the directive spellings", {"clause": "convert-injective"})
     sw.check(all("_" not in x for x in conv), "convert_fmt_str produces an underscore (the attribute would not be its own slot)", {"clause": "convert-underscore"})
+    # every regex metacharacter (the backslash included) as part of a constant text: the pattern compiles, matches the text and nothing near it
+    special = ["C:\\data\\1", "share\\", "a\\d", "\\", "\\b", "x\\1", "1.0*", "+abc", "(q)", "[z]", "a|b", "$x^", "{2}", "a?b"]
+    for i, text in enumerate(special):
+        m = {"%a": text, "%b": "plain"}
+        try:
+            C = dict2const(dict(m), "MetaConst")
+            sw.note(["meta-const", text], "meta-const")
+            got = C.parse(text, "%a").format("%a")
+            sw.check(got == text, "a constant class does not read back its own text", {"cls": "MetaConst", "directive": "%a", "clause": "const-meta", "meta": True, "text": text}, text, got)
+            for other in (text + "x", "x" + text, text[:-1] + "7", text.replace("\\", ""), text.swapcase() + "7"):
+                if other == text:
+                    continue
+                try:
+                    C.parse(other, "%a")
+                    sw.check(False, "a constant class accepts a text that is not its own", {"cls": "MetaConst", "directive": "%a", "clause": "const-meta", "meta": True, "text": text, "other": other}, "rejected", "accepted")
+                except Exception:  # noqa: BLE001
+                    pass
+        except Exception as e:  # noqa: BLE001
+            sw.check(False, "the pattern of a constant text does not compile or match the text", {"cls": "MetaConst", "directive": "%a", "clause": "const-meta", "meta": True, "text": text}, text, f"{type(e).__name__}: {e}")
     for _ in range(60 if tier == "quick" else 600):
         m = corr_fmt.rand_mapping(r)
         C = dict2const(m, "MapConst")
